@@ -447,3 +447,26 @@ def gen_gap_lookahead_case(rng):
     if rng.random() < 0.3:
         inp = inp + inp
     return [{'name': 'M0', 'patterns': pats, 'transitions': []}], inp
+
+
+RUN_CHARS = [' ', ' ', '\t', '\n', '\r', '\u3000', '\u00a0', '\u2003', 'a', '\u00e9', '-']
+
+
+def gen_run_retry_case(rng):
+    """A token that BEGINS INSIDE a run of one character: the attempt at the first copy of the run fails because of what
+    follows, the attempt one character later succeeds ("where no pattern matches, advance by ONE character").  Blank
+    characters of every byte width are the usual members of such runs (indentation, padding, empty lines)."""
+    w = rng.choice(RUN_CHARS)
+    others = [c for c in ['x', 'y', '0', 'b', '€'] if c != w]
+    d, e = rng.sample(others, 2)
+    cands = [esc(w) + esc(d), esc(w) + '{2}' + esc(e), esc(w) + esc(d) + '+', esc(w) + '[' + esc_cls(d) + esc_cls(e) + ']',
+             esc(w) + '{3}', esc(w) + esc(w) + esc(d)]
+    pats = [rng.choice(cands[:2])] + rng.sample(cands, rng.randint(0, 2)) + rng.sample([esc(d), esc(e) + '+', esc(d) + esc(e)], rng.randint(0, 2))
+    pats = list(dict.fromkeys(pats))
+    rng.shuffle(pats)
+    toks = rng.sample(range(0, 12), len(pats))
+    mode = {'name': 'M0', 'patterns': [{'p': p, 't': t} for p, t in zip(pats, toks)], 'transitions': []}
+    inp = ''
+    for _ in range(rng.randint(1, 4)):
+        inp += w * rng.randint(1, 4) + rng.choice([d, d, e, e, d + e, 'q', ''])
+    return [mode], inp
